@@ -27,7 +27,7 @@ type c06Template struct {
 
 func c06RunTemplate(r *eng.Runner, op *eng.Op, w *c06Wide, t *c06Template) (so eng.StepObs, out string) {
 	d := &c06Drv{inner: r.Inner}
-	cfg := &action.Configuration{KubeClient: &c06Kube{r.Srv.Client()}, Releases: storage.Init(d),
+	cfg := &action.Configuration{KubeClient: &c06Kube{c06Client(r.Srv)}, Releases: storage.Init(d),
 		Capabilities: chartutil.DefaultCapabilities.Copy()}
 	req0, mreq0 := r.Srv.Requests(), r.Srv.MutatingRequests()
 	var err error
